@@ -3360,6 +3360,10 @@ class Session(object):
                         self._lock.acquire()
                         return False
                     self._lock.acquire()
+                if self.is_shutdown:
+                    # shutdown() has already swept self._pools and will not see this pool
+                    new_pool.shutdown()
+                    return False
                 self._pools[host] = new_pool
 
             log.debug("Added pool for host %s to session", host)
